@@ -3144,6 +3144,10 @@ class QuicConnection:
                         discarded.add(stream)
                         continue
 
+                    if stream.is_blocked:
+                        # the peer's stream limit does not allow this stream yet
+                        continue
+
                     if stream.receiver.stop_pending:
                         # STOP_SENDING
                         self._write_stop_sending_frame(builder=builder, stream=stream)
